@@ -191,6 +191,8 @@ def check_scratch_reset(ctx):
 
 
 def check(ctx):
+    from . import c01 as _c01b
+    _c01b.check_compaction_drop(ctx)   # compaction keeps every version some live snapshot still sees
     witness.run(ctx, "C04")
     check_write(ctx)
     check_scratch_reset(ctx)
